@@ -25,7 +25,7 @@ def g_items(draw, max_items=None):
     c = gen.fa_case(draw, max_sessions=1, maxC=2, maxF=2)
     r = gen.rng(draw)
     K = gen.integer(draw, 2, 4)
-    n = gen.integer(draw, max(3, K), max_items or (14 if gen.big() else 10))
+    n = gen.integer(draw, max(3, K), max_items or (26 if gen.big() else gen.choice(draw, [10, 10, 20])))
     labels = np.concatenate([np.arange(K), r.integers(0, K, n - K)]).astype(int)
     labels = labels[np.array(gen.permutation(draw, n))]
     p = c["ubm"]
@@ -50,7 +50,7 @@ def layout(draw, n):
     kind = gen.choice(draw, ["from_sequence", "from_delayed", "from_delayed"])
     if kind == "from_sequence":
         return {"kind": kind, "npartitions": gen.integer(draw, 1, n)}
-    sizes = gen.composition(draw, n, max_parts=7)
+    sizes = gen.composition(draw, n, max_parts=gen.choice(draw, [7, 7, None]))
     # sprinkle empty partitions
     out = []
     for s in sizes:
